@@ -18,7 +18,12 @@ type c13 struct{}
 
 func init() { engine.Register(c13{}) }
 
-func (c13) PostGenerate(r *engine.Rand, sc *engine.Scenario) { chooseEnv(r, sc) }
+func (c13) PostGenerate(r *engine.Rand, sc *engine.Scenario) {
+	chooseEnv(r, sc)
+	if r.Chance(1, 3) {
+		addOtherUnitEvents(r, sc, exclVideo)
+	}
+}
 
 func (c13) ID() string { return "C13" }
 
@@ -253,6 +258,9 @@ func (c13) Execute(sc *engine.Scenario) *engine.Result {
 		for ei < len(sc.Events) && sc.Events[ei].At <= m.N {
 			ev := sc.Events[ei]
 			ei++
+			if applyOther(m, &ev, res) {
+				continue
+			}
 			cls := "line>=144"
 			if ref.Line < 144 {
 				cls = "visible"
